@@ -60,6 +60,9 @@ var ErrInfra = errors.New("tlc infrastructure failure")
 // Run executes TLC. A non-nil error means the run itself is unusable (infrastructure);
 // invariant violations are reported through Result.Violated with a nil error.
 func Run(ctx context.Context, o Options) (*Result, error) {
+	if ctx == nil {
+		ctx = context.Background()
+	}
 	if o.Timeout == 0 {
 		o.Timeout = 10 * time.Minute
 	}
@@ -103,7 +106,7 @@ func Run(ctx context.Context, o Options) (*Result, error) {
 	args = append(args,
 		"-cp", "/opt/veriftools/tla/tla2tools.jar:/opt/veriftools/tla/CommunityModules-deps.jar",
 		"tlc2.TLC",
-		"-metadir", meta, "-workers", strconv.Itoa(o.Workers), "-noGenerateSpecTE",
+		"-maxSetSize", "50000000", "-metadir", meta, "-workers", strconv.Itoa(o.Workers), "-noGenerateSpecTE",
 		"-config", o.Module+".cfg")
 	args = append(args, o.Args...)
 	args = append(args, o.Module+".tla")
